@@ -437,7 +437,7 @@ class _IncomingPacketHandler(Thread):
         possibility to add a mask for channel and port for multiple
         hits for same callback.
         """
-        for port_callback in self.cb:
+        for port_callback in list(self.cb):
             if port_callback.port == port and port_callback.port_mask == port_mask and \
                     port_callback.channel == channel and port_callback.channel_mask == channel_mask and \
                     port_callback.callback == cb:
@@ -457,7 +457,7 @@ class _IncomingPacketHandler(Thread):
             self.cf.packet_received.call(pk)
 
             found = False
-            for cb in (cb for cb in self.cb
+            for cb in (cb for cb in list(self.cb)
                        if cb.port == (pk.port & cb.port_mask) and
                        cb.channel == (pk.channel & cb.channel_mask)):
                 try:
